@@ -104,7 +104,9 @@ sPivotGrowth(int ncols, SuperMatrix *A, int *perm_c,
 		maxuj = SUPERLU_MAX( maxuj, fabs(Uval[i]) );
 	    
 	    /* Supernode */
-	    for (i = 0; i < nz_in_U; ++i)
+	    /* (a supernode left by a singular factorization can have fewer rows than
+	       columns: only the rows it has are stored) */
+	    for (i = 0; i < nz_in_U && i < nsupr; ++i)
 		maxuj = SUPERLU_MAX( maxuj, fabs(luval[i]) );
 
 	    ++nz_in_U;
